@@ -150,21 +150,40 @@ theorem field_exact_partial (O : Oracles) (R : String → PyVal → Bool) (S : S
     ∃ y y', deser O opts ign f v = .ok y ∧ validate O f y = .ok y' :=
   exact_scalar O R S hS opts ign f v hfrag h
 
-/-- **schema_exact (partial, class level).**  For every class of `inExactFragment` (flat, over the
-    exact scalar fragment, no defaults, not a field wrapper), every JSON object (string keys) that the
-    class's schema admits — the schema `structure_to_schema` returns, after the dialect rewrite — and
-    every flag setting of the Deserializer: `Deserializer(cls).deserialize(doc)` succeeds (each member
-    passes its field, required members are present, undeclared members are allowed or absent, the
-    constructor's validation accepts).  Containers and nested classes are not covered (there the
-    schema is NOT exact: findings exact:positional-shorter, exact:map-size, exact:map-key-constraint). -/
-theorem schema_exact_class_partial (O : Oracles) (R : String → PyVal → Bool) (S : String → String → Bool)
+/-- **schema_exact (partial, field level: containers and nested classes).**  `field_exact_partial`
+    extended to the fragment `exactF`: homogeneous `Array[X]` (any size bounds) and `Tuple[X]` without
+    `uniqueItems`, and nested Structure classes by `$ref` (no defaults), nested to any depth over the
+    exact scalars.  Every JSON document value (object keys are strings) that the field's schema admits —
+    class references resolved through a faithful definitions table with enough fuel — is not null and
+    is accepted by `deserialize_single_field` and by the field's validation -/
+theorem field_exact_containers_partial (O : Oracles) (S : String → String → Bool)
     (hS : ∀ p s, startAnchored p = true → S p s = true → O.reMatch p s = true)
-    (opts : DeserOpts) (cls : FieldDecl) (kvs : List (PyVal × PyVal)) (kw : List (String × PyVal))
-    (hfrag : inExactFragment cls = true) (hkw : kwOfDict kvs = some kw)
-    (h : jsV R S (dialectFix (toSchema cls).1) (.dict kvs) = true) :
+    (opts : DeserOpts) (D : Defs) (f : FieldDecl) (n : Nat) (ign : Bool) (v : PyVal)
+    (hfrag : exactF f = true) (hrefs : RefsFaithful D f) (hn : refDepth f ≤ n) (hdoc : jsonDoc v = true)
+    (h : jsValidFuel n D S (dialectFix (emit false f)) v = true) :
+    v.isNone = false ∧ ∃ y y', deser O opts ign f v = .ok y ∧ validate O f y = .ok y' := by
+  unfold jsValidFuel at h
+  rw [dialect_fix_field] at h
+  exact c08_exactN O S hS opts D f n ign v hfrag hrefs hn hdoc h
+
+/-- **schema_exact (partial, class level).**  For every class of `inExactFragment` (not a field wrapper,
+    no defaults, fields in `exactF`: exact scalars, Array[X], Tuple[X], nested classes, at any depth),
+    every JSON object that the class's schema admits — the schema and definitions `structure_to_schema`
+    returns, after the dialect rewrite, with fuel covering the nesting of class references — and every
+    flag setting of the Deserializer: `Deserializer(cls).deserialize(doc)` succeeds (each member passes
+    its field, required members are present, undeclared members are allowed or absent, the constructor's
+    validation accepts).  Positional items and sized / key-constrained Maps are not covered: there the
+    schema is NOT exact (findings exact:positional-shorter, exact:map-size, exact:map-key-constraint). -/
+theorem schema_exact_class_partial (O : Oracles) (S : String → String → Bool)
+    (hS : ∀ p s, startAnchored p = true → S p s = true → O.reMatch p s = true)
+    (opts : DeserOpts) (cls : FieldDecl) (n : Nat) (kvs : List (PyVal × PyVal))
+    (hfrag : inExactFragment cls = true) (hrefs : ClassRefsFaithful (fixedPtrDefs cls) cls)
+    (hn : refDepth cls ≤ n) (hdoc : jsonDoc (.dict kvs) = true)
+    (h : schemaAccepts S cls n (.dict kvs) = true) :
     ∃ x, deserialize O opts cls (.dict kvs) = .ok x := by
+  unfold schemaAccepts jsValidFuel at h
   rw [(dialect_fix_is_emit_true cls).1] at h
-  exact c08_exact_class O R S hS opts cls kvs kw hfrag hkw h
+  exact c08_exact_class O S hS opts (fixedPtrDefs cls) cls n kvs hfrag hrefs hn hdoc h
 
 /-! ### a concrete non-trivial input meets the hypotheses -/
 
@@ -340,17 +359,24 @@ theorem fixed_multiple_of_negative :
     ∧ verdict (flat "K" ["a"] [("a", .integer { mult := some (-2) }), ("b", .boolean)])
         (.inst "K" [("a", .int (-4))]) = true := by decide
 
+def exExactInner : FieldDecl :=
+  .struct { name := "In", required := ["k"], addl := false, accepts := ["In"] }
+    [("k", .integer { min := some ⟨0, 1⟩ }), ("s", .string none (some 2) none)] []
+
 def exExactCls : FieldDecl :=
   flat "K" ["i", "s"] [("i", .integer { min := some ⟨0, 1⟩, max := some ⟨10, 1⟩, sign := .any }),
                        ("s", .string (some 1) (some 3) none), ("b", .boolean),
-                       ("e", .enumCls "Color" ["RED", "GREEN"])]
+                       ("e", .enumCls "Color" ["RED", "GREEN"]),
+                       ("l", .seqOf .list (.tupleOf (.integer { max := some ⟨5, 1⟩ }) false) { max := some 2 }),
+                       ("n", .seqOf .list exExactInner {})]
 
 theorem schema_exact_class_example :
     inExactFragment exExactCls = true
-    ∧ schemaAccepts exS exExactCls 0 (.dict [(.str "i", .int 3), (.str "s", .str "xy"), (.str "e", .str "RED")]) = true
-    ∧ (match deserialize exO {} exExactCls (.dict [(.str "i", .int 3), (.str "s", .str "xy"), (.str "e", .str "RED")]) with
+    ∧ classRefsFaithfulB (fixedPtrDefs exExactCls) exExactCls = true ∧ refDepth exExactCls = 2
+    ∧ schemaAccepts exS exExactCls 2 (.dict [(.str "i", .int 3), (.str "s", .str "xy"), (.str "e", .str "RED"), (.str "l", .list [.list [.int 1, .int 5], .list []]), (.str "n", .list [.dict [(.str "k", .int 2)]])]) = true
+    ∧ (match deserialize exO {} exExactCls (.dict [(.str "i", .int 3), (.str "s", .str "xy"), (.str "e", .str "RED"), (.str "l", .list [.list [.int 1, .int 5], .list []]), (.str "n", .list [.dict [(.str "k", .int 2)]])]) with
        | .ok _ => true | .error _ => false) = true
-    ∧ schemaAccepts exS exExactCls 0 (.dict [(.str "i", .int 11), (.str "s", .str "xy")]) = false := by decide
+    ∧ schemaAccepts exS exExactCls 2 (.dict [(.str "i", .int 11), (.str "s", .str "xy")]) = false := by decide
 
 def exDefaults : FieldDecl :=
   flat "K" ["a"] [("a", .integer {}), ("c", .enumCls "Color" ["RED", "GREEN"]),
@@ -363,13 +389,38 @@ theorem wellformed_defaults_example :
     inWfFragment exDefaults = true ∧ wfOf exDefaults = true
     ∧ (toSchema exDefaults).2.length = 1 := by decide
 
-/-- finding `ill-formed:default:not-json`: a default that is a list of enum members (or a set, a
-    tuple) is written into the schema verbatim -/
-theorem counterexample_default_not_json :
-    raises (flat "K" ["a"] [("a", .integer {}), ("l", .seqOf .list (.enumCls "Color" ["RED", "GREEN"]) {})]
-      [("l", .list [.enumv "Color" "RED"])]) = false
-    ∧ wfOf (flat "K" ["a"] [("a", .integer {}), ("l", .seqOf .list (.enumCls "Color" ["RED", "GREEN"]) {})]
-      [("l", .list [.enumv "Color" "RED"])]) = false := by decide
+/-- classes with defaults are inside `schema_admits_partial`: the `default` written into a property
+    schema is ignored by the validator, the defaulted fields are required by the schema and present in
+    every instance of the region -/
+theorem admits_defaults_example :
+    inSchemaFragment exDefaults = true
+    ∧ inAdmitRegion exO exDefaults
+        (.inst "K" [("a", .int 1), ("c", .enumv "Color" "RED"), ("l", .list [.str "q"])]) = true
+    ∧ (match serialize exO exDefaults (.inst "K" [("a", .int 1), ("c", .enumv "Color" "RED"), ("l", .list [.str "q"])]) with
+       | .ok j => schemaAccepts exS exDefaults 1 j
+       | .error _ => false) = true := by decide
+
+/-- `AllOf` over raw scalars (Number / Integer / String / Enum of literals: accepted = conforms, the
+    stored value is the input) is inside `schema_admits_partial`; an `AllOf` with a Float option keeps the
+    raw int and stays outside (finding `admits:allOf`) -/
+theorem admits_allOf_example :
+    inSchemaFragment (flat "K" ["x"] [("x", .allOf [.integer { min := some ⟨0, 1⟩ }, .number { mult := some 2 },
+        .enumLit [.int 2, .int 4, .str "q"]]), ("b", .boolean)]) = true
+    ∧ inAdmitRegion anyO (flat "K" ["x"] [("x", .allOf [.integer { min := some ⟨0, 1⟩ }, .number { mult := some 2 },
+        .enumLit [.int 2, .int 4, .str "q"]]), ("b", .boolean)]) (.inst "K" [("x", .int 4)]) = true
+    ∧ verdict (flat "K" ["x"] [("x", .allOf [.integer { min := some ⟨0, 1⟩ }, .number { mult := some 2 },
+        .enumLit [.int 2, .int 4, .str "q"]]), ("b", .boolean)]) (.inst "K" [("x", .int 4)]) = true
+    ∧ inSchemaFragment (flat "K" ["x"] [("x", .allOf [.integer {}, .float {}]), ("b", .boolean)]) = false := by decide
+
+/-- fixed (was finding `ill-formed:default:not-json`): a default is written in its JSON form (a list of
+    enum members as the list of their names, a set / tuple as an array); inside `schema_wellformed_partial` -/
+theorem fixed_default_json :
+    inWfFragment (flat "K" ["a"] [("a", .integer {}), ("l", .seqOf .list (.enumCls "Color" ["RED", "GREEN"]) {}),
+        ("s", .setOf false (.integer {}) {})]
+      [("l", .list [.enumv "Color" "RED"]), ("s", .set false [.int 1, .int 2])]) = true
+    ∧ wfOf (flat "K" ["a"] [("a", .integer {}), ("l", .seqOf .list (.enumCls "Color" ["RED", "GREEN"]) {}),
+        ("s", .setOf false (.integer {}) {})]
+      [("l", .list [.enumv "Color" "RED"]), ("s", .set false [.int 1, .int 2])]) = true := by decide
 
 def exSetCls : FieldDecl :=
   flat "K" ["s"] [("s", .setOf false (.string none none none) { max := some 3 }),
@@ -412,18 +463,17 @@ theorem admits_renamed_example :
 def chainCls : FieldDecl := flat "K" ["a"] [("a", .integer {}), ("b", .integer {})]
 def chainKm : KeyMap := [("a", "b"), ("b", "c")]
 
-/-- finding `admits:mapper-required-renamed-in-place`: `_serialization_mapper = {"a": "b", "b": "c"}` with
-    only `a` required: the code renames `required` in place while it walks the fields, so `a`'s entry,
-    already renamed to `b`, is renamed again to `c` when field `b` comes: the schema requires `c` (the key
-    of the optional field) and not `b`; `K(a=1)` serializes to `{"b": 1}`, which the schema rejects -/
-theorem counterexample_mapper_required_in_place :
+/-- fixed (was finding `admits:mapper-required-renamed-in-place`): `_serialization_mapper = {"a": "b", "b": "c"}`
+    with only `a` required now exports `required: ["b"]`; `K(a=1)` serializes to `{"b": 1}`, which validates -/
+theorem fixed_mapper_required :
     inSchemaFragment chainCls = true
     ∧ inAdmitRegion anyO chainCls (.inst "K" [("a", .int 1)]) = true
-    ∧ requiredFaithful chainKm { name := "K", required := ["a"], accepts := ["K"] } [] ["a", "b"] = false
+    ∧ requiredFaithful chainKm { name := "K", required := ["a"], accepts := ["K"] } [] ["a", "b"] = true
     ∧ (match serialize anyO chainCls (.inst "K" [("a", .int 1)]) with
-       | .ok j => jsValidFuel 0 (fixedPtrDefs chainCls) anyS (dialectFix (classSchemaM false chainKm chainCls))
+       | .ok j => renameSafe chainKm chainCls j
+                  && jsValidFuel 0 (fixedPtrDefs chainCls) anyS (dialectFix (classSchemaM false chainKm chainCls))
                     (renameDoc chainKm j)
-       | .error _ => true) = false := by decide
+       | .error _ => false) = true := by decide
 
 /-- finding `exact:positional-shorter`: positional `Tuple` / `Array` items carry no `minItems`, so
     a shorter array is admitted by the schema and rejected by the Deserializer -/
@@ -431,10 +481,24 @@ theorem counterexample_exact_positional_shorter :
     admittedButRejected (flat "K" ["t"] [("t", .tuplePos [.integer {}, .boolean] false), ("b", .boolean)])
       (.dict [(.str "t", .list [.int 1])]) = true := by decide
 
-/-- finding `exact:map-size`: `Map(minItems/maxItems)` is emitted as `minItems` / `maxItems`, which
-    do not apply to objects -/
-theorem counterexample_exact_map_size :
+/-- fixed (was finding `exact:map-size`): `Map(minItems/maxItems)` is exported as `minProperties` /
+    `maxProperties`: an over-long object is no longer admitted; a map inside the bound still is -/
+theorem fixed_map_size :
     admittedButRejected (flat "K" ["m"] [("m", .mapAny { max := some 1 }), ("b", .boolean)])
-      (.dict [(.str "m", .dict [(.str "p", .int 1), (.str "q", .int 2)])]) = true := by decide
+      (.dict [(.str "m", .dict [(.str "p", .int 1), (.str "q", .int 2)])]) = false
+    ∧ schemaAccepts anyS (flat "K" ["m"] [("m", .mapAny { max := some 1 }), ("b", .boolean)]) 0
+      (.dict [(.str "m", .dict [(.str "p", .int 1), (.str "q", .int 2)])]) = false
+    ∧ inAdmitRegion anyO (flat "K" ["m"] [("m", .mapAny { max := some 1 }), ("b", .boolean)])
+      (.inst "K" [("m", .dict [(.str "p", .int 1)])]) = true
+    ∧ verdict (flat "K" ["m"] [("m", .mapAny { max := some 1 }), ("b", .boolean)])
+      (.inst "K" [("m", .dict [(.str "p", .int 1)])]) = true := by decide
+
+/-- finding `exact:enum-null` (since fix 512799b an Enum with a None value is exported, with `null` among the
+    enum members): the schema admits `{"d": null}` for a required `d`; the runtime treats a null as an
+    absent key and rejects the document -/
+theorem counterexample_exact_enum_null :
+    raises (flat "K" ["d"] [("d", .enumLit [.int 1, .none]), ("b", .boolean)]) = false
+    ∧ admittedButRejected (flat "K" ["d"] [("d", .enumLit [.int 1, .none]), ("b", .boolean)])
+      (.dict [(.str "d", .none)]) = true := by decide
 
 end Typedpy.C08
